@@ -19,12 +19,11 @@ def run(ctx):
         env_extra = {"TS_RS_VERIF_DEP_ORDER": mode} if mode else {}
         # a fresh target directory for the corpus crate itself: the derive macro runs again (fresh process, fresh hash seeds)
         d = os.path.join(vlib.BUILD, f"e2e-{tag}")
-        shutil.rmtree(os.path.join(d, "target", "debug", "incremental"), ignore_errors=True)
-        for f in ("deps", ".fingerprint"):
-            p = os.path.join(d, "target", "debug", f)
+        for f in ("deps", ".fingerprint", "incremental"):
+            p = os.path.join(e2e.target_dir(), "debug", f)
             if os.path.isdir(p):
                 for x in os.listdir(p):
-                    if x.startswith("e2e_c13") or x.startswith("e2e-c13"):
+                    if x.startswith(f"e2e_c13_{k}-") or x.startswith(f"e2e-c13-{k}-") or x.startswith(f"e2e_c13_{k}.") or x.startswith(f"e2e-c13-{k}."):
                         q = os.path.join(p, x)
                         shutil.rmtree(q, ignore_errors=True) if os.path.isdir(q) else os.remove(q)
         real, _ = e2e.build_and_run(ctx, tag, programs, env_extra=env_extra)
